@@ -1265,10 +1265,90 @@ func main() {
 		}
 	}
 
+	// ---- combination-ID slice boundaries: the dropped subset is the first / last
+	// combination of a goroutine's slice (and the neighbours), per (measurements, dropped, GOMAXPROCS) ----
+	for _, cfg := range [][2]int{{4, 2}, {5, 2}, {5, 3}, {6, 2}, {6, 3}, {7, 1}} {
+		n, k := cfg[0], cfg[1]
+		// k-subsets of 0..n in lexicographic order (the iterator is created with maxValue = n)
+		var combs [][]int
+		var gen func(from int, cur []int)
+		gen = func(from int, cur []int) {
+			if len(cur) == k {
+				combs = append(combs, append([]int(nil), cur...))
+				return
+			}
+			for v := from; v <= n; v++ {
+				gen(v+1, append(cur, v))
+			}
+		}
+		gen(0, nil)
+		amount := len(combs)
+		for _, g := range []int{2, 3, 5, 16} {
+			alg := h.randBank()
+			t := bootLog(h.randReg(), []uint8{0, 3}[rng.Intn(2)], false, nil)
+			for i := 1; i < n; i++ {
+				if err := t.TPMExtend(ctxBG, 0, alg, h.randDigest(alg), nil); err != nil {
+					panic(err)
+				}
+			}
+			cpr := amount / g
+			if cpr < 1 {
+				cpr = 1
+			}
+			cand := map[int]bool{}
+			for st := 0; st < amount; st += cpr {
+				for _, id := range []int{st - 1, st, st + 1, st + cpr - 1} {
+					if id >= 0 && id < amount {
+						cand[id] = true
+					}
+				}
+			}
+			var ids []int
+			for id := range cand {
+				if combs[id][k-1] != n { // a combination holding the value n drops fewer measurements
+					ids = append(ids, id)
+				}
+			}
+			sort.Ints(ids)
+			rng.Shuffle(len(ids), func(i, j int) { ids[i], ids[j] = ids[j], ids[i] })
+			keep := 5
+			if len(ids) < keep {
+				keep = len(ids)
+			}
+			// always the last non-redundant combination of the enumeration
+			lastOK := -1
+			for id := amount - 1; id >= 0; id-- {
+				if combs[id][k-1] != n {
+					lastOK = id
+					break
+				}
+			}
+			chosen := append([]int(nil), ids[:keep]...)
+			if lastOK >= 0 {
+				chosen = append(chosen, lastOK)
+			}
+			seen := map[int]bool{}
+			for _, id := range chosen {
+				if seen[id] {
+					continue
+				}
+				seen[id] = true
+				st := pcrbruteforcer.SettingsReproducePCR0{MaxDisabledMeasurements: k + 1, MaxReorders: 0}
+				st.MaxACMPolicyLinearDistance = 2
+				p := perturbation{label: "in", loc: []uint8{0, 3}[rng.Intn(2)], drop: combs[id], acm: acmChange{kind: "none"}}
+				if combs[id][0] != 0 && rng.Intn(2) == 0 {
+					p.acm = acmChange{kind: "dec", dec: 1}
+				}
+				h.scenario(scenario{kind: "e2e-slice-boundary", log: t.CommandLog, alg: alg, st: st, pert: p, gs: []int{g},
+					source: fmt.Sprintf("boot simulation (PCR0_DATA) + %d appended TPMExtend; dropped subset = combination ID %d of %d (k=%d), GOMAXPROCS=%d", n-1, id, amount, k, g)})
+			}
+		}
+	}
+
 	h.probes()
 
 	c.Finish("e2e: command logs from boot simulations on fake_intel_firmware.fd (PCR0_DATA + 0..6 further measurements, appended TPMExtend, repeated digests, other-bank/other-PCR noise) and hand-made logs (no PCR0_DATA, PCR0_DATA not first / twice / inconsistent digest, aliasing digests); " +
 		"targets by known perturbations inside the search space (locality 0|3, dropped subset, decrement 0..limit-1 or bit flips, disjoint swaps) and just outside (decrement = limit and above, one more dropped/swapped than allowed, locality 1|2|4, 3-cycle, flips beyond the limit, everything dropped) and random bytes; both banks; random settings; each under GOMAXPROCS " + fmt.Sprint(gomaxprocs) +
-		"; linear-hook: per-goroutine offered registers for " + fmt.Sprint(len(limits)) + " limits x GOMAXPROCS. A case is non-trivial when the log has >= 2 PCR0 measurements and the target is not random bytes (linear-hook: limit > 1); distinct = distinct Gallina literal")
+		"; e2e-slice-boundary: the dropped subset is the first/last combination of a goroutine's ID slice (k = 1..3 of 4..7 measurements, GOMAXPROCS 2,3,5,16); linear-hook: per-goroutine offered registers for " + fmt.Sprint(len(limits)) + " limits x GOMAXPROCS. A case is non-trivial when the log has >= 2 PCR0 measurements and the target is not random bytes (linear-hook: limit > 1); distinct = distinct Gallina literal")
 	_ = strings.Join
 }
